@@ -2,6 +2,8 @@ package gvc
 
 import (
 	"fmt"
+	"go/ast"
+	"go/parser"
 	"runtime/debug"
 	"go/types"
 	"sort"
@@ -370,6 +372,9 @@ func (vc *VC) scanMods(blocks []*ssa.BasicBlock, set map[string]bool, all *bool,
 				}
 				if callee.Pkg != nil && inModule(callee.Pkg.Pkg) && callee.Parent() == nil {
 					if blk, ok := vc.P.Blocks[funcKey(callee)]; ok && !blk.Inline {
+						if blk.Abstract {
+							continue
+						}
 						if blk.HasMod {
 							var args []T
 							for _, p := range callee.Params {
@@ -508,7 +513,7 @@ func Verify(P *Program, blk *Block, opt Options) (res *Result) {
 		res.Skipped = "STALE-CONTRACT: no function " + blk.Name
 		return res
 	}
-	if blk.Trusted {
+	if blk.Trusted || blk.Abstract {
 		res.Skipped = "trusted"
 		return res
 	}
@@ -582,8 +587,37 @@ func Verify(P *Program, blk *Block, opt Options) (res *Result) {
 			}
 		}
 	}
+	// handler twins: the contract speaks about the state before the fetch
+	pre := st
+	if len(blk.PreShift) > 0 {
+		pre = st.clone()
+		for loc, d := range blk.PreShift {
+			e, err := parser.ParseExpr(loc)
+			if err != nil {
+				res.Err = err
+				return res
+			}
+			sel := e.(*ast.SelectorExpr)
+			ec := &evalCtx{vc: vc, now: st, old: st, pkg: fn.Pkg.Pkg, env: vc.baseEnv(ctx), fn: fn}
+			base, bt, err := ec.eval(sel.X)
+			if err != nil {
+				res.Err = err
+				return res
+			}
+			tg, err := vc.fieldTargets(base, bt, sel.Sel.Name, fn.Pkg.Pkg)
+			if err != nil || len(tg) != 1 {
+				res.Err = fmt.Errorf("preshift %s: %v", loc, err)
+				return res
+			}
+			cur, _, _ := ec.eval(e)
+			vc.hstore(pre, tg[0].key, SInt, base.S, T{S: app("+", cur.S, fmt.Sprint(d)), Sort: SInt})
+		}
+		// definitional facts of the virtual state are facts of the real one too
+		st.assumes = append([]string(nil), pre.assumes...)
+		st.conds = append([]bool(nil), pre.conds...)
+	}
 	env := vc.baseEnv(ctx)
-	if err := vc.bindLets(blk, fn.Pkg.Pkg, env, st); err != nil {
+	if err := vc.bindLets(blk, fn.Pkg.Pkg, env, pre); err != nil {
 		res.Err = err
 		return res
 	}
@@ -592,14 +626,26 @@ func Verify(P *Program, blk *Block, opt Options) (res *Result) {
 		ctx.envTy[n] = env.tys[n]
 	}
 	for _, c := range blk.Requires {
-		t, err := vc.evalClause(ctx, st, st, c.Text, nil)
+		t, err := vc.evalClause(ctx, pre, pre, c.Text, nil)
 		if err != nil {
 			res.Err = fmt.Errorf("%s:%d: %v", c.File, c.Line, err)
 			return res
 		}
-		vc.assumeCond(st, t.S)
+		vc.assumeCond(pre, t.S)
 	}
-	vc.entry = st.clone()
+	if pre != st {
+		st.assumes = append([]string(nil), pre.assumes...)
+		st.conds = append([]bool(nil), pre.conds...)
+		for k, v := range pre.known {
+			if strings.HasPrefix(k, "eq:") || strings.HasPrefix(k, "b:") {
+				st.known[k] = v
+			}
+		}
+		ctx.env["returned"] = B(false)
+		ctx.envTy["returned"] = types.Typ[types.Bool]
+	}
+	vc.entry = pre.clone()
+	vc.entry.assumes = append([]string(nil), st.assumes...)
 	ctx.old = vc.entry
 	fr.ret = func(s *State, self *Frame, rs []T) {
 		vc.atReturn(s, self, rs)
